@@ -258,7 +258,7 @@ pub fn run(ctx: &Ctx) {
     ctx.assume("float guard band 1e-9*n on the s*n, epsilon*n and (s-epsilon)*n comparisons");
     ctx.run_regressions(&[&C09]);
     let t = ctx.tier;
-    ctx.run_random(&C09, t.pick(6_000, 100_000), move || strategy(t));
+    ctx.run_random(&C09, t.pick(40_000, 600_000), move || strategy(t));
     ctx.require_class("prefixes", "pruned_and_readded", 0.2);
     ctx.require_class("prefixes", "boundary_adversary", 0.1);
 }
